@@ -13,8 +13,8 @@ default / `check_on_set`, Magnitude bounds) and the constructor-time
 the store: the deprecated `Number.set_hook` (a small family of hooks as data),
 `_validate`, then the constant / read-only guard.
 
-Not modelled: Number's `softbounds` (never validated by the code), `compute_default_fn`,
-the deprecated `List(class_=…)` alias; dict-declared Selector objects are their list of values.
+Not modelled: Number's `softbounds` (never validated by the code), `compute_default_fn`;
+dict-declared Selector objects are their list of values.
 -/
 import ParamVerif.Py.Value
 
@@ -652,7 +652,8 @@ structure Args where
   length : Option Nat := none
   regex : Bool := false
   lenBounds : Option (Option (Option Int × Option Int)) := none
-  itemType : Option (List Nat) := none
+  itemType : Option (Option (List Nat)) := none   -- `some none` = `item_type=None` passed
+  classAlias : Option (List Nat) := none          -- List(class_=…), the deprecated alias of item_type
   isInstance : Option Bool := none
   objects : Option (List PyVal) := none
   checkOnSet : Option Bool := none
@@ -714,6 +715,14 @@ def effBounds (t : PType) (arg : Option Bounds) : Bounds :=
     | .magnitude => some (some (.num .float (.fin 0)), some (.num .float (.fin 1)))
     | _ => none
 
+/-- the `item_type` slot  -- src: List.__init__ (three branches; `class_` is the deprecated alias) -/
+def effItemType (a : Args) : Option (List Nat) :=
+  match a.itemType, a.classAlias with
+  | some it, some _ => it                 -- `item_type is not Undefined and class_ is not Undefined`
+  | none, ca => ca                        -- `item_type is Undefined` → `class_`
+  | some none, ca => ca                   -- `item_type is None` → `class_`
+  | some (some ks), _ => some ks
+
 /-- the slots every constructor installs from its arguments (`length` apart).
 Slots a type does not have are filled from the (absent) arguments and never
 read by its validator. -/
@@ -724,7 +733,7 @@ def baseCfg (a : Args) : Cfg :=
     incl := a.incl.getD (true, true), softbounds := (a.softbounds.getD none), step := a.step, length := 0,
     regex := a.regex,
     lenBounds := a.lenBounds.getD (some (some 0, none)),
-    itemType := a.itemType, isInstance := a.isInstance.getD true,
+    itemType := effItemType a, isInstance := a.isInstance.getD true,
     objects := objs, checkOnSet := a.checkOnSet.getD (objs.length != 0),
     classes := (match a.ptype with | .dict => [PyVal.cDict] | _ => a.classes),
     allowNamed := a.allowNamed.getD true,
